@@ -324,6 +324,8 @@ def Point_ne : List String := [
 ]
 
 def Point_neg : List String := [
+  "if self == INFINITY",
+  ".return INFINITY",
   "return Point(self.__curve, self.__x, self.__curve.p() - self.__y)"
 ]
 
